@@ -59,7 +59,11 @@ func (caller serverInitCaller) Call(s *slip.Scope, args slip.List, depth int) sl
 	self := s.Get("self").(*flavors.Instance)
 	self.SetSynchronized(true)
 	if 0 < len(args) {
-		args = args[0].(slip.List)
+		list, ok := args[0].(slip.List)
+		if !ok {
+			slip.TypePanic(s, depth, "initargs", args[0], "list")
+		}
+		args = list
 	}
 	serv := &server{
 		cons: map[string]*connection{},
